@@ -323,7 +323,7 @@ def verify_function(key, table, fields, monitor=None, timeout_ms=None, cex_fn=No
             res.obligations.append(ObResult(ob, solve.Verdict("unknown", "-", 0.0, None, "discharge budget of the function exhausted")))
             continue
         v = solve.check_valid(ob.hyps, ob.goal, timeout_ms)
-        if v.status != "discharged" and z3.is_and(ob.goal) and ob.kind in ("inv-entry", "inv-preserve", "post") \
+        if v.status != "discharged" and z3.is_and(ob.goal) and ob.kind in ("inv-entry", "inv-preserve", "post", "pre-of", "assert") \
                 and ob.goal.num_args() > 1:
             # report the conjuncts separately: smaller queries, and the failing part is named
             parts = ob.goal.children()
